@@ -140,6 +140,8 @@ def run_shards(prop_id, specs, timeout_s):
                         tail = f.read()[-1500:].decode('utf-8', 'replace')
                     err = 'shard exited rc=%s without output: %s' % (rc, tail)
                 results[idx] = (spec, res, err)
+                if os.environ.get('VERIF_TIMING'):
+                    print('  shard %d %.1fs %s' % (idx, time.time() - t0, json.dumps(spec)[:120]))
             running = still
             if running:
                 time.sleep(0.02)
